@@ -127,11 +127,16 @@ Definition parsed_attr (attrs : list attr_meta) : option (option iden_attr) :=
   | Some m => match attr_of_meta m with Some a => Some (Some a) | None => None end
   end.
 
+(* syn::ext::IdentExt::unraw (and format_ident!, which drops the prefix of an identifier argument):
+   the identifier without its raw prefix r#. Identifiers travel in this model as their to_string(). *)
+Definition unraw (ident : str) : str :=
+  match ident with 114 :: 35 :: t => t | _ => ident end.
+
 (* lib.rs get_table_name *)
 Definition get_table_name (ident : str) (attrs : list attr_meta) : option str :=
   match parsed_attr attrs with
   | None => None
-  | Some None => Some (snake_case ident)
+  | Some None => Some (snake_case (unraw ident))
   | Some (Some (Rename lit)) => Some lit
   | Some (Some _) => None          (* ErrorMsg::ContainerAttr *)
   end.
@@ -162,7 +167,7 @@ Definition variant_new (v : variant) : option (option iden_attr) :=
   end.
 
 Definition table_or_snake_case (table_name ident : str) : str :=
-  if str_eqb ident TABLE then table_name else snake_case ident.
+  if str_eqb ident TABLE then table_name else snake_case (unraw ident).
 
 (* what the generated match arm writes *)
 Inductive name_expr := NLit (s : str) | NCall (m : str) | NDelegated.
@@ -193,20 +198,18 @@ Definition or_default (o : option str) (d : str) : str := match o with Some s =>
 Definition DEFAULT_PREFIX : str := [].
 Definition DEFAULT_SUFFIX : str := K "Iden"%string.
 
-(* format_ident! writes an identifier argument without its raw prefix r# (IdentFragment) *)
-Definition unraw (ident : str) : str :=
-  match ident with 114 :: 35 :: t => t | _ => ident end.
 Definition enum_def_name (a : enum_def_args) (ident : str) : str :=
   or_default (ed_prefix a) DEFAULT_PREFIX ++ unraw ident ++ or_default (ed_suffix a) DEFAULT_SUFFIX.
 Definition enum_def_table_name (a : enum_def_args) (ident : str) : str :=
-  match ed_table_name a with Some t => t | None => snake_case ident end.
+  match ed_table_name a with Some t => t | None => snake_case (unraw ident) end.
 (* variant identifiers of the generated enum, in order *)
-Definition enum_def_variants (field_names : list str) : list str := TABLE :: map pascal_case field_names.
+Definition enum_def_variants (field_names : list str) : list str :=
+  TABLE :: map (fun f => pascal_case (unraw f)) field_names.
 (* IdenStatic::as_str of the i-th variant: stringify!(ident) *)
 Definition enum_def_as_str (a : enum_def_args) (ident : str) (field_names : list str) (i : nat) : option str :=
   match i with
   | O => Some (enum_def_table_name a ident)
-  | S k => nth_error field_names k
+  | S k => option_map unraw (nth_error field_names k)
   end.
 
 (* ---------------------------------------------------------------------------------------------- *)
@@ -226,19 +229,6 @@ Inductive value :=
 Definition ty_ident (t : tydef) : str :=
   match t with DEnum i _ _ => i | DUnit i _ => i | DEnumDef a i _ => enum_def_name a i end.
 
-(* write!(s, "literal") with no arguments: {{ and }} are the escapes, any other brace does not compile *)
-Fixpoint fmt_literal (s : str) : option str :=
-  match s with
-  | [] => Some []
-  | c :: t =>
-      if (c =? 123) || (c =? 125) then
-        match t with
-        | d :: t' => if d =? c then option_map (cons c) (fmt_literal t') else None
-        | [] => None
-        end
-      else option_map (cons c) (fmt_literal t)
-  end.
-
 (* methods named by #[method = ".."] are user code: menv type_ident method_name = the text it returns *)
 Definition method_env := str -> str -> str.
 
@@ -248,8 +238,7 @@ Definition variant_arm (table_name : str) (v : variant) : option name_expr :=
 (* Iden::unquoted as generated (None: the program does not compile / the value is ill-typed) *)
 Fixpoint unquoted (menv : method_env) (t : tydef) (v : value) : option str :=
   match t, v with
-  | DUnit ident attrs, VUnit =>
-      match get_table_name ident attrs with Some tn => fmt_literal tn | None => None end
+  | DUnit ident attrs, VUnit => get_table_name ident attrs        (* the name is an argument of write!, not its format string *)
   | DEnum ident attrs vs, VVariant i inner =>
       match get_table_name ident attrs, nth_error vs i with
       | Some tn, Some var =>
